@@ -91,6 +91,17 @@ def classify_report(report, returncode):
             if m3:
                 fn = _strip_fn(m3.group(1))
             kind = "glibcxx-assert:" + re.sub(r"[^A-Za-z0-9_<>=!]+", "-", m.group(1))[:50] + "@" + fn
+    if kind is None:
+        m = re.search(r"==\d+== (Invalid read|Invalid write|Conditional jump or move depends on uninitialised|"
+                      r"Use of uninitialised value|Invalid free|Mismatched free|Syscall param[^\n]*uninitialised|"
+                      r"Source and destination overlap)", report)
+        if m:
+            kind = "memcheck:" + m.group(1).split(" depends")[0].replace(" ", "-")
+            for line in report.splitlines():
+                fm = re.search(r"==\d+==\s+(?:at|by) 0x[0-9A-F]+: (.+?) \((.+?)\)", line)
+                if fm and ("nitro::" in fm.group(1) or "/repo/" in fm.group(2) or "nitro/" in fm.group(2)):
+                    kind += "@" + _strip_fn(fm.group(1))
+                    break
     if kind is None and "terminate called" in report:
         m = re.search(r"terminate called after throwing an instance of '(.*?)'", report)
         kind = "terminate:" + (m.group(1) if m else "unknown")
